@@ -225,6 +225,17 @@ def structure_of(m):
     }
 
 
+def heads_of(struct):
+    """`structure_of` in the vocabulary of the Lean `heads` / `Call.head`: [kind, name, args | None, [[compound, args | None]]]"""
+    def a(v):
+        return list(v[1]) if v[0] in ("ia", "dyn") else None
+
+    return ([["variable", k, a(v), []] for k, v in struct["vars"]]
+            + [["parameter", k, a(v), []] for k, v in struct["pars"]]
+            + [["derived", k, list(args), []] for k, args in struct["derived"]]
+            + [["reaction", k, list(args), [[c, a(f)] for c, f in st]] for k, args, st in struct["rxns"]])
+
+
 def _round_trip(m, qs):
     """answers of the model, generated source, answers of the model rebuilt by executing that source"""
     from mxlpy.meta import generate_mxlpy_code
@@ -578,7 +589,13 @@ def judge_phase(ctx, case, R, M, tag=""):
         Mk = [d[0] for d in M["program"]["ok"]["defs"]] if M is not None and "ok" in M["program"] else None
         ctx.judge(dict(base, queries=[]), [d[0] for d in R["shape"]["defs"]], expected_def_keys(case["content"]), Mk,
                   what="keys of the emitted definitions" + tag)
-    # ---- names, kinds, wiring
+    # ---- names, kinds, wiring (Lean: `heads` of the model and `Call.head` of the program, C11_build_structure)
+    if M is not None and "heads" in M:
+        if M["heads"]["model"] != heads_of(R["S_struct"]):
+            ctx.add_drift(dict(base, queries=[]), heads_of(R["S_struct"]), M["heads"]["model"], "what the model declares (heads)" + tag)
+        if "err" not in R["R_struct"] and M["heads"]["program"] != heads_of(R["R_struct"]):
+            ctx.add_drift(dict(base, queries=[]), heads_of(R["R_struct"]), M["heads"]["program"],
+                          "what the generated program declares (Call.head)" + tag)
     ctx.judge(dict(base, queries=[]), R["R_struct"], R["S_struct"], None,
               what="component names / kinds / arguments / plain values" + tag)
     # ---- behaviour
